@@ -169,13 +169,44 @@ def r4_content_length_use(ctx):
     for c in b.calls_to(r"Limited::<.*>::new$"):
         p = op_place(c.args[1])
         R.check(not (p is not None and p["l"] in tainted), "C19.R4", "not-the-size-limit", "the size limit is not derived from Content-Length", "the body limit is derived from the Content-Length header", where(c))
+    # ... nor in any caller: what bounds the read is the configured limit alone, never something announced by the peer
+    n = 0
+    for c in F.all_calls(r"^jsonrpsee_core::http_helpers::read_body$"):
+        cb = c.body
+        if is_test_body(cb):
+            continue
+        n += 1
+        hdr = cb.calls_to(r"http_helpers::read_header_(value|content_length|values)$|HeaderMap::<.*>::(get|get_all)$|Body::size_hint$|SizeHint::(lower|upper|exact)$")
+        t2 = forward_taint(cb, {h.dest["l"] for h in hdr if h.dest}) if hdr else set()
+        p = op_place(c.args[2])
+        R.check(not (p is not None and p["l"] in t2), "C19.R4", "%s:limit-not-from-headers" % fkey(cb), "the limit handed to read_body does not depend on request headers", "%s derives the limit it hands to read_body from a request header / size hint: a body that disagrees with its Content-Length (chunked, rewritten by a middleware) is then answered differently from the same bytes without the header" % short(cb.path), where(c))
+    R.floor("C19.R4.callers", n, 1, "callers of read_body")
+
+
+def r6_proxy_rewrites_only_what_it_proxies(ctx):
+    """the GET-proxy middleware may give a request the JSON content type only together with the JSON body it writes: no
+    header mutation can flow into the pass-through call of the inner service, otherwise a non-JSON / non-POST request
+    to a proxied path slips through the 415/405 gate behind it"""
+    F, R = ctx.F, ctx.R
+    b = F.one(r"^<jsonrpsee_server::middleware::http::proxy_get_request::ProxyGetRequest<S> as tower::Service<hyper::Request<B>>>::call$")
+    R.fn(b)
+    inner = [c for c in b.calls if c.callee == "tower::Service::call"]
+    rewr = b.calls_to(r"jsonrpsee_types::(request::)?Request::<'.*>::borrowed$|^serde_json::to_vec$")
+    R.check(len(inner) >= 2 and bool(rewr), "C19.R6", "proxy:shape", "a rewriting path and a pass-through path", "ProxyGetRequest::call changed: %d inner calls, %d body constructions" % (len(inner), len(rewr)), "%s:%d" % (b.file, b.lo))
+    passthrough = [c for c in inner if not any(b.dominates(r_.bb, c.bb) for r_ in rewr)]
+    R.check(bool(passthrough), "C19.R6", "proxy:pass-through-exists", "requests that are not proxied are passed on", "no pass-through path left", "%s:%d" % (b.file, b.lo))
+    muts = b.calls_to(r"HeaderMap::<.*>::(insert|append|remove|clear|entry|try_insert|try_append)$|Request::<.*>::(method_mut|uri_mut)$")
+    R.floor("C19.R6", len(muts), 2, "request mutations in ProxyGetRequest::call")
+    for m in muts:
+        bad = [c for c in passthrough if b.can_reach(m.bb, c.bb)]
+        R.check(not bad, "C19.R6", "proxy:%s@%d-only-when-proxying" % ((m.name() or "").split("::")[-1], sorted(x.bb for x in muts).index(m.bb)), "the request is modified only on the path that also writes the JSON body", "ProxyGetRequest::call modifies the request (%s) on a path that passes it on unproxied: e.g. a POST with a non-JSON content type to a proxied path is given `application/json` and gets past the 415 gate" % short(m.name() or ""), where(m))
 
 
 def r5_loop_exits(ctx):
     read_body_loop_exits(ctx.F, ctx.R, "C19.R5", ctx.tracer(follow_callers=False, follow_fields=False))
 
 
-RULES = [r1_gate, r2_chunk_independence, r3_is_json, r4_content_length_use, r5_loop_exits]
+RULES = [r1_gate, r2_chunk_independence, r3_is_json, r4_content_length_use, r5_loop_exits, r6_proxy_rewrites_only_what_it_proxies]
 
 LEVEL_TEXT = (
     "Structural necessary conditions decided from the type-checked program: the method/content-type gate by dominance on "
